@@ -2258,6 +2258,21 @@ def run_c17(ctx: fw.Ctx) -> None:
             st2.fail(f"resolution failed: {res[0]} {res[1]}", case)
             continue
         check_tree(st2, res[1], case)
+    st3 = ctx.stream("after resolution of trees whose statement-level inlined files end in a top-level return (K4 concerns how that PRINTS; the tree must be a proper tree all the same)")
+    rets = ["return M", "return setup(M)", "return M:init(1), f(g(2))", "return {k = f()}", "return function() return h() end", "return"]
+    hows = ["require('m')", "do require 'm' end", "if c then require('m') else require('m') end", "function w() require('m') end", "require('m')\nlocal again = require('m')"]
+    for ret in rets:
+        for how in hows:
+            for pre in ("", "local M = {}\nM.x = f(1)\n"):
+                tree = {"files": {"main.lua": f"start()\n{how}\ntail()\n", "m.lua": pre + ret + "\n"}, "dirs": [], "main": "main.lua", "search": []}
+                case = {"kind": "filetree", "files": tree["files"], "main": tree["main"], "search": tree["search"]}
+                st3.record(case, key=json.dumps(case, sort_keys=True))
+                res = resolve_tree(tree)
+                if res[0] != "ok":
+                    st3.fail(f"resolution failed: {res[0]} {res[1]}", case)
+                    continue
+                check_tree(st3, res[1], case)
+    st3.exhaustive = True
     t2_resolve(ctx, [make_file_tree(r, faults=False) for _ in range(ctx.n(30, 500))])
 
 
@@ -3147,7 +3162,11 @@ class ApiWorld:
                         return "MUTATED-BUILTIN-STYLE"
                     return "text:" + out
                 if kind == "resolve":
-                    ast = tumfl.resolve_recursive(self.root / op[1], [self.root / s for s in op[2]], op[3] if len(op) > 3 else False)
+                    sp = [self.root / s for s in op[2]]
+                    sp_before = list(sp)
+                    ast = tumfl.resolve_recursive(self.root / op[1], sp, op[3] if len(op) > 3 else False)
+                    if sp != sp_before:
+                        return "MUTATED-SEARCH-PATH (resolve_recursive changed the list the caller passed)"
                     return "ast:" + struct_json(ast) + "|" + json.dumps([c.replace(str(self.root), "<root>") for c in ast.comment])
                 if kind == "lexer_new":
                     self.lexers[op[1]] = Lexer(op[2], typed=op[3])
